@@ -29,6 +29,21 @@ pub struct Req {
 
 impl Req {
     pub fn builder(&self) -> BuildOptimiser {
+        // One builder reused for a quench and then for this run, through the setter methods (what
+        // a library user does who does not clone): only for settings the setters can express.
+        if self.seed % 3 == 0 && self.kt_ratio.is_none() && self.kt_finish.is_some() {
+            let mut b = BuildOptimiser::default();
+            b.kt_start(0.).steps(10).seed(1);
+            let _quench = b.build();
+            b.kt_start(self.kt_start)
+                .kt_finish(self.kt_finish.unwrap())
+                .steps(self.steps)
+                .inner_steps(self.inner)
+                .max_step_size(self.max_step)
+                .convergence(self.convergence)
+                .seed(self.seed);
+            return b;
+        }
         let mut args: Vec<String> = vec!["x".into()];
         args.push("--steps".into());
         args.push(format!("{}", self.steps));
@@ -285,7 +300,8 @@ impl Projector {
 fn kt_json(kt: f64) -> Value {
     if kt == 0. && kt.is_sign_positive() {
         json!({"cls": "zero", "lvl": 0})
-    } else if kt > 0. && kt.is_finite() {
+    } else if kt > 0. {
+        // +inf is a legitimate (if extreme) temperature: its logarithm saturates the fixed point
         json!({"cls": "pos", "lvl": fx(kt.ln())})
     } else {
         json!({"cls": "bad", "lvl": 0})
